@@ -220,40 +220,12 @@ pub fn object_keys(
                 .filter(|k| !k.is_symbol())
                 .map(|k| JsValue::String(JsString::from(k.to_string())))
                 .collect()
-        } else if let ExoticObject::Array { ref elements } = obj.exotic {
-            // For arrays, include numeric indices first (0, 1, 2, ...), then other enumerable properties
-            let len = elements.len();
-            let mut result: Vec<JsValue> = (0..len)
-                .map(|i| JsValue::String(JsString::from(i.to_string())))
-                .collect();
-            // Add any other enumerable string properties (like "length" is not enumerable)
-            // Skip numeric index keys since they're already covered above
-            for (key, prop) in obj.properties.iter() {
-                if prop.enumerable() && !key.is_symbol() {
-                    // Skip if this is a numeric index that's already covered by elements
-                    let is_covered_index = match key {
-                        PropertyKey::Index(idx) => (*idx as usize) < len,
-                        PropertyKey::String(s) => {
-                            if let Ok(idx) = s.as_str().parse::<usize>() {
-                                idx < len
-                            } else {
-                                false
-                            }
-                        }
-                        PropertyKey::Symbol(_) => false,
-                    };
-                    if !is_covered_index {
-                        result.push(JsValue::String(JsString::from(key.to_string())));
-                    }
-                }
-            }
-            result
         } else {
-            // Standard object - get from properties
-            // Only include enumerable string keys, not symbols
-            obj.properties
-                .iter()
-                .filter(|(key, prop)| prop.enumerable() && !key.is_symbol())
+            // Own enumerable string keys, not symbols: the indices of an array (or of a String
+            // object) first, then the other properties in creation order
+            obj.own_enumerable_entries()
+                .into_iter()
+                .filter(|(key, _)| !key.is_symbol())
                 .map(|(key, _)| JsValue::String(JsString::from(key.to_string())))
                 .collect()
         }
@@ -269,28 +241,30 @@ pub fn object_values(
     _this: JsValue,
     args: &[JsValue],
 ) -> Result<Guarded, JsError> {
-    let obj = args.first().cloned().unwrap_or(JsValue::Undefined);
-    let JsValue::Object(obj_ref) = obj else {
+    let arg = args.first().cloned().unwrap_or(JsValue::Undefined);
+    // Primitives are boxed, null/undefined throw
+    let boxed = interp.to_object(arg)?;
+    let JsValue::Object(obj_ref) = boxed.value.clone() else {
         return Err(JsError::type_error("Object.values requires an object"));
     };
 
-    let values: Vec<JsValue> = {
-        let obj = obj_ref.borrow();
-
-        // For enums, get values from EnumData
-        if let ExoticObject::Enum(ref data) = obj.exotic {
-            data.values()
-        } else {
-            // Own enumerable string-keyed properties (array elements included), not symbols
-            obj.own_enumerable_entries()
-                .into_iter()
-                .filter(|(key, _)| !key.is_symbol())
-                .map(|(_, value)| value)
-                .collect()
-        }
+    let guard = interp.heap.create_guard();
+    // For enums, get values from EnumData
+    let enum_values = match obj_ref.borrow().exotic {
+        ExoticObject::Enum(ref data) => Some(data.values()),
+        _ => None,
+    };
+    let values: Vec<JsValue> = match enum_values {
+        Some(values) => values,
+        // Own enumerable string-keyed properties (array elements included), not symbols
+        None => interp
+            .read_own_enumerable_entries(&boxed.value, &guard)?
+            .into_iter()
+            .filter(|(key, _)| !key.is_symbol())
+            .map(|(_, value)| value)
+            .collect(),
     };
 
-    let guard = interp.heap.create_guard();
     let arr = interp.create_array_from(&guard, values);
     Ok(Guarded::with_guard(JsValue::Object(arr), guard))
 }
@@ -300,30 +274,31 @@ pub fn object_entries(
     _this: JsValue,
     args: &[JsValue],
 ) -> Result<Guarded, JsError> {
-    let obj = args.first().cloned().unwrap_or(JsValue::Undefined);
-    let JsValue::Object(obj_ref) = obj else {
+    let arg = args.first().cloned().unwrap_or(JsValue::Undefined);
+    // Primitives are boxed, null/undefined throw
+    let boxed = interp.to_object(arg)?;
+    let JsValue::Object(obj_ref) = boxed.value.clone() else {
         return Err(JsError::type_error("Object.entries requires an object"));
-    };
-
-    // Collect key-value pairs first to release the borrow
-    let pairs: Vec<(String, JsValue)> = {
-        let obj = obj_ref.borrow();
-
-        // For enums, get entries from EnumData
-        if let ExoticObject::Enum(ref data) = obj.exotic {
-            data.entries()
-        } else {
-            // Own enumerable string-keyed properties (array elements included), not symbols
-            obj.own_enumerable_entries()
-                .into_iter()
-                .filter(|(key, _)| !key.is_symbol())
-                .map(|(key, value)| (key.to_string(), value))
-                .collect()
-        }
     };
 
     // Use single guard for all entry arrays
     let guard = interp.heap.create_guard();
+    // For enums, get entries from EnumData
+    let enum_entries = match obj_ref.borrow().exotic {
+        ExoticObject::Enum(ref data) => Some(data.entries()),
+        _ => None,
+    };
+    let pairs: Vec<(String, JsValue)> = match enum_entries {
+        Some(entries) => entries,
+        // Own enumerable string-keyed properties (array elements included), not symbols
+        None => interp
+            .read_own_enumerable_entries(&boxed.value, &guard)?
+            .into_iter()
+            .filter(|(key, _)| !key.is_symbol())
+            .map(|(key, value)| (key.to_string(), value))
+            .collect(),
+    };
+
     let mut entries: Vec<JsValue> = Vec::with_capacity(pairs.len());
     for (key, value) in pairs {
         let arr =
@@ -336,7 +311,7 @@ pub fn object_entries(
 }
 
 pub fn object_assign(
-    _interp: &mut Interpreter,
+    interp: &mut Interpreter,
     _this: JsValue,
     args: &[JsValue],
 ) -> Result<Guarded, JsError> {
@@ -347,13 +322,12 @@ pub fn object_assign(
         ));
     };
 
+    let guard = interp.heap.create_guard();
     for source in args.iter().skip(1) {
-        if let JsValue::Object(src_ref) = source {
-            // (collected first: the source may be the target itself)
-            let entries = src_ref.borrow().own_enumerable_entries();
-            for (key, value) in entries {
-                target_ref.borrow_mut().set_property(key, value);
-            }
+        // (collected first: the source may be the target itself)
+        let entries = interp.read_own_enumerable_entries(source, &guard)?;
+        for (key, value) in entries {
+            target_ref.borrow_mut().set_property(key, value);
         }
     }
 
